@@ -900,7 +900,8 @@ pub fn run(line: &str) -> Option<(String, Vec<String>)> {
                 orc.push(format!("pre-cancelled call made {} progress reports", o1.reports.len()));
             }
             if o2.result.is_err() {
-                orc.push(format!("retry after reset failed: {}", res_name(&o2.result)));
+                let how = if same_progress { " (same Progress value as the cancelled call)" } else { "" };
+                orc.push(format!("retry after reset failed{how}: {}", res_name(&o2.result)));
             }
             let written1 = o1.written;
             if written1 != 0 {
